@@ -3,12 +3,14 @@ import Mdsort.Proofs.WorldFrameMain
 /-!
 # Dry run in stdin mode (`-d -`): every call is one of the spool's own calls (C05)
 
-`DrySpoolCall env tr c` is the complete description of a call `c` issued when the trace so far is
+`DrySpoolCall env cm sa tr c` is the complete description of a call `c` issued when the trace so far is
 `tr` by a run with `-d` and `-`: the configuration file, the spool (`mkdtemp`, `mkdir`, `opendir`,
 exclusive create, `write`, `fsync`, `readdir`, `openat` for reading, `unlinkat`, `rmdir`, `closedir` -
 all of them on the paths / handles / descriptors the run itself obtained from `mkdtemp` of the
-template below TMPDIR), `read` and `close`.  Nothing else: no `renameat`, `unlink`, `utimensat`,
-`mkostemp`, `fprintf`, `fork`, `waitpid`, no `opendir` of a configured maildir or a destination.
+template below TMPDIR), `read` and `close`; and the calls of the conditions that ask the operating system:
+`open("/dev/null")`, `fork`, `waitpid` if the rules have a `command` condition (`cm`), `stat` if they have an
+`isdirectory` or file-time `date` condition (`sa`).  Nothing else: no `renameat`, `unlink`, `utimensat`,
+`mkostemp`, `fprintf`, no `opendir` of a configured maildir or a destination; no process for an ACTION.
 The statement is proved for ARBITRARY results of the calls (`runOracle`), hence for every fault plan.
 -/
 
@@ -30,7 +32,11 @@ def dry_IsFd (tr : List (Call × Res)) (fd : Handle) : Prop :=
   ∃ d n, dry_IsDir tr d ∧ (Call.openExcl d n, Res.ok fd) ∈ tr
 
 /-- What a call of a run with `-d -` can be, given the trace so far. -/
-def DrySpoolCall (env : PEnv) (tr : List (Call × Res)) : Call → Prop
+def DrySpoolCall (env : PEnv) (cm sa : Bool) (tr : List (Call × Res)) : Call → Prop
+  | .openPath p => cm = true ∧ p = ofString "/dev/null"
+  | .fork => cm = true
+  | .waitpid => cm = true
+  | .stat _ => sa = true
   | .fopen p => p = env.confpath
   | .fclose h => (Call.fopen env.confpath, Res.ok h) ∈ tr
   | .mkdtemp t => pathjoin PATH_MAX env.tmpdir (ofString "mdsort-XXXXXXXX") = some t
@@ -49,9 +55,9 @@ def DrySpoolCall (env : PEnv) (tr : List (Call × Res)) : Call → Prop
   | .rmdir p => p = [] ∨ dry_IsRoot tr p ∨ dry_IsNew tr p
   | _ => False
 
-/-- The mutating calls among these, and no `fork`. -/
-theorem DrySpoolCall.kinds {env : PEnv} {tr : List (Call × Res)} {c : Call} (h : DrySpoolCall env tr c) :
-    c ≠ .fork ∧ (c.mutating = true →
+/-- The mutating calls among these, and a `fork` only for a `command` condition. -/
+theorem DrySpoolCall.kinds {env : PEnv} {cm sa : Bool} {tr : List (Call × Res)} {c : Call} (h : DrySpoolCall env cm sa tr c) :
+    (c = .fork → cm = true) ∧ (c.mutating = true →
       (∃ t, c = .mkdtemp t ∧ pathjoin PATH_MAX env.tmpdir (ofString "mdsort-XXXXXXXX") = some t) ∨
       (∃ p, c = .mkdir p ∧ dry_IsNew tr p) ∨
       (∃ d n, c = .openExcl d n ∧ dry_IsDir tr d) ∨
@@ -60,6 +66,7 @@ theorem DrySpoolCall.kinds {env : PEnv} {tr : List (Call × Res)} {c : Call} (h 
       (∃ p, c = .rmdir p ∧ (p = [] ∨ dry_IsRoot tr p ∨ dry_IsNew tr p))) := by
   cases c <;> first
     | exact h.elim
+    | exact ⟨fun _ => h, fun hm => by cases hm⟩
     | (refine ⟨(fun e => by cases e), fun hm => ?_⟩; first
         | exact .inl ⟨_, rfl, h⟩
         | exact .inr (.inl ⟨_, rfl, h⟩)
@@ -94,7 +101,7 @@ namespace Mdsort.Proofs.Own
 open Mdsort Mdsort.Model Mdsort.Proofs
 open Mdsort.Proofs.World (bind_eq pure_eq ret_bind call_bind' call_bind bind_assoc Calls All)
 
-variable {R : Call → Res → Prop}
+variable {R : Call → Res → Prop} {cm sa : Bool}
 
 theorem dry_mem_snoc (tr : Trace) (x : Call × Res) : x ∈ tr ++ [x] := by simp
 
@@ -120,7 +127,7 @@ theorem dry_wp_calls {α} {I : Trace → Call → Prop} {C : Call → Prop} {J :
 
 theorem dry_genname (env envc : PEnv) (md : Maildir) (flags : Option Bytes) (fuel count : Nat) (tr : Trace)
     (hmd : ∀ d, md.dirH = some d → dry_IsDir tr d) :
-    wp R (DrySpoolCall envc) (genname env md flags fuel count)
+    wp R (DrySpoolCall envc cm sa) (genname env md flags fuel count)
       (fun res tr' => ∀ h name, res = some (h, name) → dry_IsFd tr' h) tr := by
   induction fuel generalizing count tr with
   | zero => unfold genname; intro _ _ h; cases h
@@ -149,7 +156,7 @@ theorem dry_genname (env envc : PEnv) (md : Maildir) (flags : Option Bytes) (fue
     | eof => intro _ _ h; cases h
 
 theorem dry_wr (env : PEnv) (fd : Handle) (fuel : Nat) (chunk : Bytes) (tr : Trace) (h : dry_IsFd tr fd) :
-    wp R (DrySpoolCall env) (copyStdin.wr fd fuel chunk) (fun _ _ => True) tr := by
+    wp R (DrySpoolCall env cm sa) (copyStdin.wr fd fuel chunk) (fun _ _ => True) tr := by
   induction fuel generalizing chunk tr with
   | zero => unfold copyStdin.wr; exact True.intro
   | succ fuel ih =>
@@ -169,7 +176,7 @@ theorem dry_wr (env : PEnv) (fd : Handle) (fuel : Nat) (chunk : Bytes) (tr : Tra
       | eof => exact True.intro
 
 theorem dry_copyStdin (env : PEnv) (fd : Handle) (fuel : Nat) (input : Bytes) (tr : Trace) (h : dry_IsFd tr fd) :
-    wp R (DrySpoolCall env) (copyStdin fd fuel input) (fun _ _ => True) tr := by
+    wp R (DrySpoolCall env cm sa) (copyStdin fd fuel input) (fun _ _ => True) tr := by
   induction fuel generalizing input tr with
   | zero => unfold copyStdin; exact True.intro
   | succ fuel ih =>
@@ -195,7 +202,7 @@ theorem dry_md0 (tr : Trace) :
   ⟨rfl, (fun _ h => by cases h), .inl rfl, .inl rfl⟩
 
 theorem dry_maildirStdin (env : PEnv) (input : Bytes) (tr : Trace) :
-    wp R (DrySpoolCall env) (maildirStdin env input) (fun r tr' => DryMd tr' r.1) tr := by
+    wp R (DrySpoolCall env cm sa) (maildirStdin env input) (fun r tr' => DryMd tr' r.1) tr := by
   unfold maildirStdin gennameStart maildirOpendir
   simp only [bind_eq, pure_eq, call_bind, call_bind', ret_bind]
   split
@@ -239,7 +246,7 @@ theorem dry_maildirStdin (env : PEnv) (input : Bytes) (tr : Trace) :
           refine wp_bind_ext (dry_copyStdin env fd _ input _ hfd) ?_
           intro e1 L2 _
           have fin : ∀ (tr' : Trace) (e2 : Bool),
-              wp R (DrySpoolCall env) (Prog.call (Call.close fd) fun r3 =>
+              wp R (DrySpoolCall env cm sa) (Prog.call (Call.close fd) fun r3 =>
                 Prog.ret (({ root := root, path := p, dirH := some h, subdir := .new, walk := true, stdin := true } : Maildir),
                   e2 || !isOk r3, some name)) (fun r tr' => DryMd tr' r.1)
                 (tr1 ++ [(Call.mkdir p, r2)] ++ [(Call.opendir p, Res.ok h)] ++ L ++ L2 ++ tr') := by
@@ -283,7 +290,7 @@ theorem dry_afterVerdict (env : PEnv) (md : Maildir) (name : Bytes) (st : MainSt
 
 theorem dry_processMessage_calls (env : PEnv) (orc : EvalOracles) (expr : Expr) (md : Maildir) (name : Bytes) (st : MainSt)
     (d : Handle) (hd : env.dryrun = true) (hdir : md.dirH = some d) :
-    Calls (ParseCall d) (processMessage env orc expr md name st) ∧
+    Calls (ParseEvalCall d expr) (processMessage env orc expr md name st) ∧
     All (fun r => r.2 = md) (processMessage env orc expr md name st) := by
   cases hf : st.files.get md.path name with
   | none =>
@@ -291,19 +298,23 @@ theorem dry_processMessage_calls (env : PEnv) (orc : EvalOracles) (expr : Expr) 
     exact ⟨calls_ret _, rfl⟩
   | some content =>
     rw [processMessage_eq env orc expr md name st d content hdir hf]
-    have hK : ∀ pm, Calls IsClose (afterParse env orc expr md name st pm) ∧
+    have hK : ∀ pm, Calls (ParseEvalCall d expr) (afterParse env orc expr md name st pm) ∧
         All (fun r => r.2 = md) (afterParse env orc expr md name st pm) := by
       intro pm
       cases pm with
       | none => exact ⟨calls_ret _, rfl⟩
-      | some ms => exact dry_afterVerdict env md name st ms _ hd
+      | some ms =>
+        refine ⟨World.Calls.bind (calls_mono (evalMs_calls env orc expr ms) fun c hc => .inr hc) fun ev =>
+          calls_mono (dry_afterVerdict env md name st ms _ hd).1 fun c hc => .inl (.inr (.inr hc)),
+          World.All.bind_of_forall _ fun ev => (dry_afterVerdict env md name st ms _ hd).2⟩
     refine ⟨?_, World.All.bind_of_forall _ fun pm => (hK pm).2⟩
-    exact calls_bind_all (parse_messageParseP d md.path name content) (All.trivial _)
-      fun pm _ => calls_mono (hK pm).1 fun c hc => .inr (.inr hc)
+    exact calls_bind_all (calls_mono (parse_messageParseP d md.path name content) fun c hc => .inl hc) (All.trivial _)
+      fun pm _ => (hK pm).1
 
 theorem dry_processMessage (env : PEnv) (orc : EvalOracles) (expr : Expr) (md : Maildir) (name : Bytes) (st : MainSt)
-    (hd : env.dryrun = true) (tr : Trace) (hmd : DryMd tr md) :
-    wp R (DrySpoolCall env) (processMessage env orc expr md name st) (fun r tr' => r.2 = md) tr := by
+    (hd : env.dryrun = true) (hcm : hasCommand expr = true → cm = true)
+    (hsa : (hasIsDir expr = true ∨ hasFileDate expr = true) → sa = true) (tr : Trace) (hmd : DryMd tr md) :
+    wp R (DrySpoolCall env cm sa) (processMessage env orc expr md name st) (fun r tr' => r.2 = md) tr := by
   cases hdir : md.dirH with
   | none =>
     rw [processMessage_noDir env orc expr md name st hdir]
@@ -313,14 +324,21 @@ theorem dry_processMessage (env : PEnv) (orc : EvalOracles) (expr : Expr) (md : 
     refine wp_mono (dry_wp_calls (J := fun tr => dry_IsDir tr d) (fun tr x h => dry_IsDir.mono h [x]) ?_ hc ha tr (hmd.dir d hdir))
       fun _ _ h => h.1
     intro tr' c hj hc'
-    rcases hc' with ⟨nm, rfl⟩ | ⟨fd, rfl⟩ | ⟨fd, rfl⟩
+    rcases hc' with (⟨nm, rfl⟩ | ⟨fd, rfl⟩ | ⟨fd, rfl⟩) | ⟨h1, rfl | rfl | rfl | ⟨h, rfl⟩⟩ | ⟨h1, p, rfl⟩
     · exact hj
     · exact True.intro
     · exact True.intro
+    · exact ⟨hcm h1, rfl⟩
+    · exact hcm h1
+    · exact hcm h1
+    · exact True.intro
+    · exact hsa h1
 
-theorem dry_walk (env : PEnv) (orc : EvalOracles) (expr : Expr) (hd : env.dryrun = true) (fuel : Nat) (md : Maildir)
+theorem dry_walk (env : PEnv) (orc : EvalOracles) (expr : Expr) (hd : env.dryrun = true)
+    (hcm : hasCommand expr = true → cm = true) (hsa : (hasIsDir expr = true ∨ hasFileDate expr = true) → sa = true)
+    (fuel : Nat) (md : Maildir)
     (st : MainSt) (tr : Trace) (hmd : DryMd tr md) :
-    wp R (DrySpoolCall env) (walk env orc expr fuel md st) (fun r tr' => DryMd tr' r.2) tr := by
+    wp R (DrySpoolCall env cm sa) (walk env orc expr fuel md st) (fun r tr' => DryMd tr' r.2) tr := by
   induction fuel generalizing md st tr with
   | zero => exact hmd
   | succ fuel ih =>
@@ -335,7 +353,7 @@ theorem dry_walk (env : PEnv) (orc : EvalOracles) (expr : Expr) (hd : env.dryrun
       dsimp only
       split
       · exact ih _ _ _ (hmd.mono _)
-      · refine wp_bind_ext (dry_processMessage env orc expr md n st hd _ (hmd.mono _)) ?_
+      · refine wp_bind_ext (dry_processMessage env orc expr md n st hd hcm hsa _ (hmd.mono _)) ?_
         intro x L hx
         rw [hx]
         exact ih _ _ _ ((hmd.mono _).mono _)
@@ -348,7 +366,7 @@ theorem dry_walk (env : PEnv) (orc : EvalOracles) (expr : Expr) (hd : env.dryrun
 /-! ## the spool is removed -/
 
 theorem dry_closeLoop (env : PEnv) (d : Handle) (fuel : Nat) (tr : Trace) (hdir : dry_IsDir tr d) :
-    wp R (DrySpoolCall env) (closeStdin.loop d fuel) (fun _ _ => True) tr := by
+    wp R (DrySpoolCall env cm sa) (closeStdin.loop d fuel) (fun _ _ => True) tr := by
   induction fuel generalizing tr with
   | zero => unfold closeStdin.loop; exact True.intro
   | succ fuel ih =>
@@ -366,11 +384,11 @@ theorem dry_closeLoop (env : PEnv) (d : Handle) (fuel : Nat) (tr : Trace) (hdir 
     | err e => exact True.intro
     | eof => exact True.intro
 
-theorem dry_closeStdin (env : PEnv) (md : Maildir) (tr : Trace) (hmd : DryMd tr md) :
-    wp R (DrySpoolCall env) (closeStdin md) (fun _ _ => True) tr := by
-  have hpath : ∀ L, DrySpoolCall env (tr ++ L) (.rmdir md.path) :=
+theorem dry_closeStdin (env : PEnv) (fuel : Nat) (md : Maildir) (tr : Trace) (hmd : DryMd tr md) :
+    wp R (DrySpoolCall env cm sa) (closeStdin fuel md) (fun _ _ => True) tr := by
+  have hpath : ∀ L, DrySpoolCall env cm sa (tr ++ L) (.rmdir md.path) :=
     fun L => hmd.path.imp id (fun h => .inr (dry_IsNew.mono h L))
-  have hroot : ∀ L, DrySpoolCall env (tr ++ L) (.rmdir md.root) :=
+  have hroot : ∀ L, DrySpoolCall env cm sa (tr ++ L) (.rmdir md.root) :=
     fun L => hmd.root.imp id (fun h => .inl (dry_IsRoot.mono h L))
   cases hdir : md.dirH with
   | none =>
@@ -384,7 +402,7 @@ theorem dry_closeStdin (env : PEnv) (md : Maildir) (tr : Trace) (hmd : DryMd tr 
     unfold closeStdin
     simp only [bind_eq, pure_eq, call_bind, call_bind', hdir, ret_bind]
     refine wp_call hd fun r0 _ => ?_
-    refine wp_bind_ext (dry_closeLoop env d 64 _ (hd.mono _)) ?_
+    refine wp_bind_ext (dry_closeLoop env d fuel _ (hd.mono _)) ?_
     intro _ L _
     refine wp_call (by simpa [List.append_assoc] using hpath ([(Call.rewinddir d, r0)] ++ L)) fun r1 _ => ?_
     refine wp_call (by simpa [List.append_assoc] using hroot ([(Call.rewinddir d, r0)] ++ L ++ [(Call.rmdir md.path, r1)]))
@@ -395,8 +413,9 @@ theorem dry_closeStdin (env : PEnv) (md : Maildir) (tr : Trace) (hmd : DryMd tr 
 /-! ## the whole run -/
 
 theorem dry_paths (env : PEnv) (orc : EvalOracles) (input : Bytes) (b : ConfBlock) (hd : env.dryrun = true)
-    (hm : env.stdinMode = true) (ps : List Bytes) (st : MainSt) (tr : Trace) :
-    wp R (DrySpoolCall env) (mainP.blocks.paths env orc input b ps st) (fun _ _ => True) tr := by
+    (hm : env.stdinMode = true) (hcm : hasCommand b.expr = true → cm = true)
+    (hsa : (hasIsDir b.expr = true ∨ hasFileDate b.expr = true) → sa = true) (ps : List Bytes) (st : MainSt) (tr : Trace) :
+    wp R (DrySpoolCall env cm sa) (mainP.blocks.paths env orc input b ps st) (fun _ _ => True) tr := by
   induction ps generalizing st tr with
   | nil => rw [paths_nil]; exact True.intro
   | cons p more ih =>
@@ -408,31 +427,32 @@ theorem dry_paths (env : PEnv) (orc : EvalOracles) (input : Bytes) (b : ConfBloc
       · refine wp_bind_ext (dry_maildirStdin env input _) ?_
         intro x L hx
         split
-        · refine wp_bind_ext (dry_closeStdin env x.1 _ hx) ?_
+        · refine wp_bind_ext (dry_closeStdin env _ x.1 _ hx) ?_
           intro _ L2 _
           exact ih _ _
-        · refine wp_bind_ext (dry_walk env orc b.expr hd 64 x.1 _ _ hx) ?_
+        · refine wp_bind_ext (dry_walk env orc b.expr hd hcm hsa _ x.1 _ _ hx) ?_
           intro y L2 hy
-          refine wp_bind_ext (dry_closeStdin env y.2 _ hy) ?_
+          refine wp_bind_ext (dry_closeStdin env _ y.2 _ hy) ?_
           intro _ L3 _
           exact ih _ _
       · rename_i hs
         exact absurd (by simp [skipPath, hm, hs]) hsk
 
 theorem dry_blocks (env : PEnv) (orc : EvalOracles) (input : Bytes) (hd : env.dryrun = true) (hm : env.stdinMode = true)
-    (bs : List ConfBlock) (st : MainSt) (tr : Trace) :
-    wp R (DrySpoolCall env) (mainP.blocks env orc input bs st) (fun _ _ => True) tr := by
+    (bs : List ConfBlock) (hcm : ∀ b ∈ bs, hasCommand b.expr = true → cm = true)
+    (hsa : ∀ b ∈ bs, (hasIsDir b.expr = true ∨ hasFileDate b.expr = true) → sa = true) (st : MainSt) (tr : Trace) :
+    wp R (DrySpoolCall env cm sa) (mainP.blocks env orc input bs st) (fun _ _ => True) tr := by
   induction bs generalizing st tr with
   | nil => rw [blocks_nil]; exact True.intro
   | cons b rest ih =>
     rw [blocks_cons]
-    refine wp_bind_ext (dry_paths env orc input b hd hm _ _ _) ?_
+    refine wp_bind_ext (dry_paths env orc input b hd hm (hcm b (List.mem_cons_self ..)) (hsa b (List.mem_cons_self ..)) _ _ _) ?_
     intro st' L _
-    exact ih _ _
+    exact ih (fun b' hb' => hcm b' (List.mem_cons_of_mem _ hb')) (fun b' hb' => hsa b' (List.mem_cons_of_mem _ hb')) _ _
 
 theorem dry_mainP (env : PEnv) (orc : EvalOracles) (ok : Bool) (conf : List ConfBlock) (files : Files) (input : Bytes)
     (hd : env.dryrun = true) (hm : env.stdinMode = true) :
-    wp R (DrySpoolCall env) (mainP env orc ok conf files input) (fun _ _ => True) [] := by
+    wp R (DrySpoolCall env (confHasCommand conf) (confHasStat conf)) (mainP env orc ok conf files input) (fun _ _ => True) [] := by
   rw [mainP_eq]
   refine wp_call rfl fun r _ => ?_
   cases r with
@@ -444,7 +464,10 @@ theorem dry_mainP (env : PEnv) (orc : EvalOracles) (ok : Bool) (conf : List Conf
     · exact True.intro
     · split
       · exact True.intro
-      · refine wp_bind_ext (dry_blocks env orc input hd hm _ _ _) ?_
+      · refine wp_bind_ext (dry_blocks env orc input hd hm conf
+            (fun b hb h => by simp only [confHasCommand, List.any_eq_true]; exact ⟨b, hb, h⟩)
+            (fun b hb h => by
+              simp only [confHasStat, List.any_eq_true, Bool.or_eq_true]; exact ⟨b, hb, h⟩) _ _) ?_
         intro stf L _
         exact True.intro
   | err e => exact True.intro
@@ -516,7 +539,8 @@ theorem dry_runPlan_as_oracle {α} (plan : Plan) (p : Prog α) (w : World) :
 theorem dry_stdin_calls (env : PEnv) (orc : EvalOracles) (ok : Bool) (conf : List ConfBlock) (files : Files) (input : Bytes)
     (hd : env.dryrun = true) (hm : env.stdinMode = true) (orcl : Nat → Call → Res) :
     ∀ i c r, (runOracle orcl (mainP env orc ok conf files input) 0 []).2[i]? = some (c, r) →
-      DrySpoolCall env ((runOracle orcl (mainP env orc ok conf files input) 0 []).2.take i) c := by
+      DrySpoolCall env (confHasCommand conf) (confHasStat conf)
+        ((runOracle orcl (mainP env orc ok conf files input) 0 []).2.take i) c := by
   intro i c r hget
   exact (Own.wp_sound (R := fun _ _ => True) orcl (fun _ _ => True.intro)
     (Own.dry_mainP env orc ok conf files input hd hm) 0).2.2 i c r (Nat.zero_le _) hget
@@ -525,7 +549,8 @@ theorem dry_stdin_calls (env : PEnv) (orc : EvalOracles) (ok : Bool) (conf : Lis
 theorem dry_stdin_calls_plan (env : PEnv) (orc : EvalOracles) (ok : Bool) (conf : List ConfBlock) (files : Files) (input : Bytes)
     (w : World) (plan : Plan) (hd : env.dryrun = true) (hm : env.stdinMode = true) :
     ∀ i c r, ((runPlan plan (mainP env orc ok conf files input) w 0 []).2.1.trace.drop w.trace.length)[i]? = some (c, r) →
-      DrySpoolCall env (((runPlan plan (mainP env orc ok conf files input) w 0 []).2.1.trace.drop w.trace.length).take i) c := by
+      DrySpoolCall env (confHasCommand conf) (confHasStat conf)
+        (((runPlan plan (mainP env orc ok conf files input) w 0 []).2.1.trace.drop w.trace.length).take i) c := by
   have h := dry_runPlan_as_oracle plan (mainP env orc ok conf files input) w
   rw [← h.2]
   exact dry_stdin_calls env orc ok conf files input hd hm _
